@@ -68,14 +68,17 @@ type Trail struct{} //«s10»
 
 var c15bAlts = []string{" @immutable", " @constructor New, Make", " @testonly", " @packageonly w", " @mutable", " @implements &pk.Iface", " plain", " see @immutable", " @Immutable", " @immutablex", " @test only", " @ mutable",
 	// accepted annotations whose ignored trailing text mentions other keywords
-	" @testonly not an @immutable one", " @immutable (was @constructor N)", " @packageonly w or @testonly", " @mutable unlike @immutable", " @constructor New, Make @implements X"}
+	" @testonly not an @immutable one", " @immutable (was @constructor N)", " @packageonly w or @testonly", " @mutable unlike @immutable", " @constructor New, Make @implements X",
+	// a tab instead of a blank between // and the keyword
+	"\t@testonly", "\t@packageonly w"}
 
 // the keyword a comment spelling is an annotation of ("" if it is none) — from the documented grammar
 func c15bKeyword(alt string) string {
 	for _, k := range []string{"immutable", "constructor", "testonly", "packageonly", "mutable", "implements"} {
-		p := " @" + k
-		if len(alt) >= len(p) && alt[:len(p)] == p && (len(alt) == len(p) || alt[len(p)] == ' ') {
-			return k
+		for _, p := range []string{" @" + k, "\t@" + k} {
+			if len(alt) >= len(p) && alt[:len(p)] == p && (len(alt) == len(p) || alt[len(p)] == ' ') {
+				return k
+			}
 		}
 	}
 	return ""
